@@ -182,6 +182,7 @@ def verify_function(key, tier='quick', keep_terms=False, discharge=True):
             for ob in ex.obligations:
                 smt.discharge(ob, tier)
         res.raw = ex.obligations if keep_terms else None
+        res.used = sorted(ex.used)
         res.entry_env = entry_env[0] if keep_terms else None
         res.entry_heap_consts = None
         res.keepalive = ex.keepalive if keep_terms else None
